@@ -7,6 +7,7 @@ import Gama.Model.AcordIntersection
 import Gama.Model.Acord2
 import Gama.Model.PointId
 import Gama.Model.LinTypes
+import Gama.Model.TestLinearization
 open Gama Gama.Proto Gama.Cogo
 
 /-- numeric tokens: hex doubles, or decimal naturals (counts / flags) -/
@@ -23,14 +24,37 @@ def chunk3 : List Float → List (Float × Float × Float)
   | a :: b :: c :: rest => (a, b, c) :: chunk3 rest
   | _ => []
 
-/-- one point block of the `pol` ops: free_xy x y dx dy free_z z dz → corrected (x, y, z) -/
-def ptBlock (b : List Float) : Float × Float × Float :=
+def fuel : Nat := 64
+
+/-- one point block of the `pol` ops: free_xy x y dx dy free_z z dz → the point as `Lin.Obs` holds it
+    (status free / fixed) and the corrections `x(index_x())`, `x(index_y())`, `x(index_z())` of its unknowns -/
+def ptBlock (b : List Float) : Gama.Lin.Pt Float × (Gama.Lin.Coord → Float) :=
+  match b with
+  | [fxy, x, y, dx, dy, fz, z, dz] =>
+    (⟨x, y, z, if fxy != 0 then .free else .fixed, if fz != 0 then .free else .fixed⟩,
+     fun c => match c with | .x => dx | .y => dy | .z => dz | .ori => 0)
+  | _ => (⟨0, 0, 0, .fixed, .fixed⟩, fun _ => 0)
+
+/-- the same block as the corrected coordinates (x, y, z) the hand-written `GN.pol*` take -/
+def ptCorr (b : List Float) : Float × Float × Float :=
   match b with
   | [fxy, x, y, dx, dy, fz, z, dz] =>
     (GN.corr (fxy != 0) x dx, GN.corr (fxy != 0) y dy, GN.corr (fz != 0) z dz)
   | _ => (0, 0, 0)
 
-def fuel : Nat := 64
+/-- `pol` of the REGENERATED `TestLinearizationVisitor::visit` of the class (`Gen/TestLinVisitor.lean`) on the
+    record the generated linearisation reads -/
+def polOp (k : Gama.Lin.Kind) (val v : Float) (f t fs : List Float) (orp xori : Float) : String :=
+  let (pf, cf) := ptBlock f
+  let (pt, ct) := ptBlock t
+  let (ps, cs) := ptBlock fs
+  let o : Gama.Lin.Obs Float := ⟨pf, pt, ps, val, orp, 0⟩
+  let s : Gama.Gen.TestLin.Sol Float :=
+    ⟨fun r c => match r with | .pfrom => cf c | .pto => ct c | .pfs => cs c | .station => xori, v⟩
+  match Gama.TL.Kind.visit k fuel o s with
+  | some mp => s!"ok {showFloat mp.2}"
+  | none => "throw fuel"
+
 
 def refineOp (ts : List String) : String := Id.run do
   -- groups of 6 tokens: ty id xval a b c
@@ -412,25 +436,36 @@ def step (_ : Unit) (line : String) : Unit × String :=
           let dirs := (chunk3 rest).map (fun t => (bearing (⟨sx, sy⟩ : Pt Float) ⟨t.1, t.2.1⟩, t.2.2))
           let r := Median.orientation fuel dirs
           s!"ori {showFloat r.1} {r.2}"
+        -- the hand-written reading of the visitor (Model/GaussNewton.lean) …
         | "poldist", val :: v :: rest =>
-          let f := ptBlock (rest.take 8); let t := ptBlock ((rest.drop 8).take 8)
+          let f := ptCorr (rest.take 8); let t := ptCorr ((rest.drop 8).take 8)
           s!"ok {showFloat (GN.polDistance val v f.1 f.2.1 t.1 t.2.1)}"
         | "poldir", val :: v :: rest =>
-          let f := ptBlock (rest.take 8); let t := ptBlock ((rest.drop 8).take 8)
+          let f := ptCorr (rest.take 8); let t := ptCorr ((rest.drop 8).take 8)
           match rest.drop 16 with
           | [orp, xori] => s!"ok {showFloat (GN.polDirection fuel val v orp xori f.1 f.2.1 t.1 t.2.1)}"
           | _ => "bad-op"
         | "polangle", val :: v :: rest =>
-          let f := ptBlock (rest.take 8); let t := ptBlock ((rest.drop 8).take 8)
-          let t2 := ptBlock ((rest.drop 16).take 8)
+          let f := ptCorr (rest.take 8); let t := ptCorr ((rest.drop 8).take 8)
+          let t2 := ptCorr ((rest.drop 16).take 8)
           s!"ok {showFloat (GN.polAngle fuel val v f.1 f.2.1 t.1 t.2.1 t2.1 t2.2.1)}"
         | "polsdist", val :: v :: rest =>
-          let f := ptBlock (rest.take 8); let t := ptBlock ((rest.drop 8).take 8)
+          let f := ptCorr (rest.take 8); let t := ptCorr ((rest.drop 8).take 8)
           -- the visitor's lambda: d := -(d + p) twice, i.e. from - to; only squares are used
           s!"ok {showFloat (GN.polSDistance val v (f.1 - t.1) (f.2.1 - t.2.1) (f.2.2 - t.2.2))}"
         | "polzangle", val :: v :: rest =>
-          let f := ptBlock (rest.take 8); let t := ptBlock ((rest.drop 8).take 8)
+          let f := ptCorr (rest.take 8); let t := ptCorr ((rest.drop 8).take 8)
           s!"ok {showFloat (GN.polZAngle fuel val v (f.1 - t.1) (f.2.1 - t.2.1) (f.2.2 - t.2.2))}"
+        -- … and the visitor REGENERATED from the source (Gen/TestLinVisitor.lean), on the same op lines
+        | "gpoldist", val :: v :: rest => polOp .distance val v (rest.take 8) ((rest.drop 8).take 8) [] 0 0
+        | "gpoldir", val :: v :: rest =>
+          match rest.drop 16 with
+          | [orp, xori] => polOp .direction val v (rest.take 8) ((rest.drop 8).take 8) [] orp xori
+          | _ => "bad-op"
+        | "gpolangle", val :: v :: rest =>
+          polOp .angle val v (rest.take 8) ((rest.drop 8).take 8) ((rest.drop 16).take 8) 0 0
+        | "gpolsdist", val :: v :: rest => polOp .s_distance val v (rest.take 8) ((rest.drop 8).take 8) [] 0 0
+        | "gpolzangle", val :: v :: rest => polOp .z_angle val v (rest.take 8) ((rest.drop 8).take 8) [] 0 0
         | "testlin", _ :: pols => s!"flag {if GN.testLin pols then 1 else 0}"
         | _, _ => "bad-op"
       ((), r)
